@@ -21,8 +21,16 @@ import (
 	"verif/internal/vh"
 )
 
+// foreignEED is an error of an earlier exchange: an *EEDError with messages of its own.
+func foreignEED() error {
+	e := &tds.EEDError{WrappedError: errors.New("earlier statement failed")}
+	e.Add(&tds.EEDPackage{MsgNumber: 99100, State: 1, Class: 16, Msg: "message of an earlier exchange", ServerName: "other"})
+	e.Add(&tds.EEDPackage{MsgNumber: 99101, State: 1, Class: 16, Msg: "another one", ServerName: "other"})
+	return e
+}
+
 func TestMain(m *testing.M) {
-	vh.Rule("rapid: histories of 1..4 responses on one channel; each with 0..6 EED packages (info / non-info) and 0..3 ENVCHANGE packages of 0..3 members (all four types, PACKSIZE with legal sizes) at any statement boundary (info EED and ENVCHANGE also between rows), any packetisation (so special packages are parsed, rolled back and re-parsed), 0..3 message hooks and 0..3 environment hooks registered before or between responses, and a consumer that either reads package by package right after every packet (ordering) or uses NextPackageUntil with a callback that fails at package k (started after the response has arrived, or polling with wait=false from its own goroutine while the packets arrive). One global event log (hook calls and consumer receipts with sequence numbers). Oracle: every hook gets every non-info EED exactly once, equal, in arrival order, in registration order, before the consumer gets any later package; info EEDs and ENVCHANGE never delivered, info EEDs never hooked; every member reported once to every env hook with (type, old, new); PacketSize() = last announced size; a failing callback's error matches the callback error and, if EEDs preceded, is an *EEDError starting with exactly those EEDs. Non-trivial: >= 1 EED or member and a cut inside or right after a special package; distinct by the history")
+	vh.Rule("rapid: histories of 1..4 responses on one channel; each with 0..6 EED packages (info / non-info) and 0..3 ENVCHANGE packages of 0..3 members (all four types, PACKSIZE with legal sizes) at any statement boundary (info EED and ENVCHANGE also between rows), any packetisation (so special packages are parsed, rolled back and re-parsed), 0..3 message hooks and 0..3 environment hooks registered before or between responses, and a consumer that either reads package by package right after every packet (ordering) or uses NextPackageUntil with a callback that fails at package k (started after the response has arrived, or polling with wait=false from its own goroutine while the packets arrive). One global event log (hook calls and consumer receipts with sequence numbers). Oracle: every hook gets every non-info EED exactly once, equal, in arrival order, in registration order, before the consumer gets any later package; info EEDs and ENVCHANGE never delivered, info EEDs never hooked; every member reported once to every env hook with (type, old, new); PacketSize() = last announced size; a failing callback's error matches the callback error and, if EEDs preceded, is an *EEDError carrying exactly those EEDs followed by nothing but later messages of the same response (also when the callback's own error wraps an *EEDError of an earlier exchange). Non-trivial: >= 1 EED or member and a cut inside or right after a special package; distinct by the history")
 	vh.Assume("'all messages received so far' is read as 'delivered before the failing package' (EEDs drained afterwards may or may not be included); hooks registered while a response is in flight are not generated; PACKSIZE values are decimal numbers in 256..65535")
 	vh.Main(m, "C11")
 }
@@ -37,6 +45,9 @@ type round struct {
 	// Poll: (with FailAt >= 0) the consumer polls with wait=false from its own goroutine while
 	// the packets are still arriving, instead of starting after the whole response is there
 	Poll bool `json:"consumer_polls_while_packets_arrive"`
+	// WrapEED: the callback's error passes on the failure of an earlier exchange: it wraps an
+	// *EEDError carrying messages that do not belong to this response
+	WrapEED bool `json:"callback_error_wraps_a_foreign_eed_error"`
 }
 
 type c11Case struct {
@@ -137,6 +148,9 @@ func runCase(c c11Case) (f *vh.Failure) {
 						if r.WrapEOF {
 							// still "an error that is not an unwrapped io.EOF"
 							return false, fmt.Errorf("%w: %w", errCB, io.EOF)
+						}
+						if r.WrapEED {
+							return false, fmt.Errorf("%w, caused by: %w", errCB, foreignEED())
 						}
 						return false, errCB
 					}
@@ -316,6 +330,26 @@ func runCase(c c11Case) (f *vh.Failure) {
 							return vh.Failf("C11/eed-error-content", "%s: message %d carried by the error: %v", where, i, err)
 						}
 					}
+					// whatever else it carries are the later messages of this response (met while the
+					// rest was consumed), in order - nothing from elsewhere, nothing twice
+					var after []rc.EED
+					for i, pos := range eedPos {
+						if pos >= k {
+							after = append(after, eeds[i])
+						}
+					}
+					extra := ee.EEDPackages[len(before):]
+					if len(extra) > len(after) {
+						return vh.Failf("C11/eed-error-foreign-message", "%s: error carries %d messages, the response has only %d (%d before the failing package)", where, len(ee.EEDPackages), len(before)+len(after), len(before))
+					}
+					for i := range extra {
+						if err := pkggen.EEDEqual(after[i], *extra[i]); err != nil {
+							return vh.Failf("C11/eed-error-foreign-message", "%s: message %d carried by the error is not message %d of the response: %v", where, len(before)+i, len(before)+i, err)
+						}
+					}
+					if r.WrapEED {
+						vh.Label("callback-error-wraps-foreign-eed-error")
+					}
 					vh.Label("eed-error-with-messages")
 				}
 				vh.Label("callback-failed")
@@ -383,6 +417,7 @@ func TestHooks(t *testing.T) {
 				r.FailAt = rapid.IntRange(0, 6).Draw(rt, "failat")
 				r.WrapEOF = rapid.IntRange(0, 2).Draw(rt, "wrapeof") == 0
 				r.Poll = rapid.IntRange(0, 2).Draw(rt, "poll") == 0
+				r.WrapEED = !r.WrapEOF && rapid.IntRange(0, 2).Draw(rt, "wrapeed") == 0
 			}
 			c.Rounds = append(c.Rounds, r)
 		}
